@@ -6,6 +6,7 @@ import translate_params
 import translate_hedge
 import translate_ks
 import translate_mixins
+import translate_parametric
 
 
 def gen_arith():
@@ -28,4 +29,8 @@ def gen_dispatch():
     return translate_mixins.translate(os.path.join(PKG, "pba/mixins.py"))
 
 
-ALL = [("GenDispatch", gen_dispatch), ("GenArith", gen_arith), ("GenParams", gen_params), ("GenHedge", gen_hedge), ("GenKS", gen_ks)]
+def gen_parametric():
+    return translate_parametric.translate(os.path.join(PKG, "pba/pbox_parametric.py"), os.path.join(PKG, "pba/intervals/number.py"))
+
+
+ALL = [("GenParametric", gen_parametric), ("GenDispatch", gen_dispatch), ("GenArith", gen_arith), ("GenParams", gen_params), ("GenHedge", gen_hedge), ("GenKS", gen_ks)]
